@@ -1,6 +1,16 @@
 package main
 
 import (
+	"verif/internal/keys"
+	"time"
+	"math/big"
+	"encoding/pem"
+	"crypto/x509/pkix"
+	"crypto/x509"
+	crand "crypto/rand"
+	"crypto/elliptic"
+	"crypto/ed25519"
+	"crypto/ecdsa"
 	"bytes"
 	"encoding/binary"
 	"fmt"
@@ -368,6 +378,28 @@ func devicePathHostiles(r *mon.Run) []hostile {
 			}
 		}
 	}
+	// the defined types with every subtype up to 32: bodies without any zero byte (a text field
+	// that never ends), all zero, all ones; the input ending with the node, inside it, or going on
+	for _, t := range []int{1, 2, 3, 4, 5, 0x7f} {
+		for st := 0; st <= 32; st++ {
+			for _, bl := range []int{1, 4, 8, 12, 13, 16, 20, 24, 40, 64} {
+				for fi, fill := range []byte{0x41, 0x00, 0xff} {
+					body := bytes.Repeat([]byte{fill}, bl)
+					n := append([]byte{byte(t), byte(st), byte(4 + bl), 0}, body...)
+					key := fmt.Sprintf("st%d/len%d/fill%d", st, bl, fi)
+					out = append(out, hostile{n, "node-sweep-ends-with-node", fmt.Sprint(t), key, "devicepath"})
+					out = append(out, hostile{append(append([]byte(nil), n...), end...), "node-sweep", fmt.Sprint(t), key, "devicepath"})
+					if bl >= 8 {
+						out = append(out, hostile{n[:len(n)-3], "node-sweep-cut-inside-node", fmt.Sprint(t), key, "devicepath"})
+						// the length field promises more than there is
+						m := append([]byte(nil), n...)
+						m[2] = byte(4 + bl + 16)
+						out = append(out, hostile{m, "node-sweep-length-beyond-input", fmt.Sprint(t), key, "devicepath"})
+					}
+				}
+			}
+		}
+	}
 	// hard-drive nodes: partition format / signature type 0..255, partition number 0
 	for f := 0; f < 256; f++ {
 		for _, pn := range []uint32{0, 1, 0xffffffff} {
@@ -711,6 +743,58 @@ func checkC14(r *mon.Run) {
 			}
 			hs = append(hs, hostile{b, "pem-blocks", combo, "", "pem"})
 		}
+		addAll("pem.ReadKey", hs, nil)
+		addAll("pem.ReadCert", hs, nil)
+		addAll("pem.ReadKeyFromFile+ReadCertFromFile", hs, nil)
+	}
+	// well-formed key and certificate files of kinds the library does not use (EC, Ed25519,
+	// PKCS#1, SEC 1, public keys, requests): an error is fine, a crash is not
+	{
+		var hs []hostile
+		pemOf := func(typ string, der []byte) []byte { return pem.EncodeToMemory(&pem.Block{Type: typ, Bytes: der}) }
+		add := func(kind string, b []byte) { hs = append(hs, hostile{b, "foreign-key-kind", kind, "", "pem"}) }
+		if ek, err := ecdsa.GenerateKey(elliptic.P256(), crand.Reader); err == nil {
+			if der, err := x509.MarshalPKCS8PrivateKey(ek); err == nil {
+				add("pkcs8-ec-p256", pemOf("PRIVATE KEY", der))
+			}
+			if der, err := x509.MarshalECPrivateKey(ek); err == nil {
+				add("sec1-ec", pemOf("EC PRIVATE KEY", der))
+				add("sec1-ec-labelled-pkcs8", pemOf("PRIVATE KEY", der))
+			}
+			if der, err := x509.MarshalPKIXPublicKey(&ek.PublicKey); err == nil {
+				add("public-key", pemOf("PUBLIC KEY", der))
+				add("public-key-labelled-private", pemOf("PRIVATE KEY", der))
+			}
+			tmpl := &x509.Certificate{SerialNumber: big.NewInt(5), Subject: pkix.Name{CommonName: "ec"}, NotBefore: time.Unix(946684800, 0), NotAfter: time.Unix(2500000000, 0)}
+			if der, err := x509.CreateCertificate(crand.Reader, tmpl, tmpl, &ek.PublicKey, ek); err == nil {
+				add("ec-certificate", pemOf("CERTIFICATE", der))
+				add("ec-certificate-trusted-label", pemOf("TRUSTED CERTIFICATE", der))
+			}
+			if der, err := x509.CreateCertificateRequest(crand.Reader, &x509.CertificateRequest{Subject: pkix.Name{CommonName: "req"}}, ek); err == nil {
+				add("certificate-request", pemOf("CERTIFICATE REQUEST", der))
+				add("request-labelled-certificate", pemOf("CERTIFICATE", der))
+			}
+		}
+		if ek, err := ecdsa.GenerateKey(elliptic.P384(), crand.Reader); err == nil {
+			if der, err := x509.MarshalPKCS8PrivateKey(ek); err == nil {
+				add("pkcs8-ec-p384", pemOf("PRIVATE KEY", der))
+			}
+		}
+		if _, ed, err := ed25519.GenerateKey(crand.Reader); err == nil {
+			if der, err := x509.MarshalPKCS8PrivateKey(ed); err == nil {
+				add("pkcs8-ed25519", pemOf("PRIVATE KEY", der))
+			}
+		}
+		rk := keys.Get(0).Priv
+		add("pkcs1-rsa", pemOf("RSA PRIVATE KEY", x509.MarshalPKCS1PrivateKey(rk)))
+		add("pkcs1-rsa-labelled-pkcs8", pemOf("PRIVATE KEY", x509.MarshalPKCS1PrivateKey(rk)))
+		if der, err := x509.MarshalPKCS8PrivateKey(rk); err == nil {
+			add("pkcs8-rsa-labelled-pkcs1", pemOf("RSA PRIVATE KEY", der))
+			add("pkcs8-rsa-encrypted-label", pemOf("ENCRYPTED PRIVATE KEY", der))
+			add("pkcs8-rsa-with-headers", pem.EncodeToMemory(&pem.Block{Type: "PRIVATE KEY", Headers: map[string]string{"Proc-Type": "4,ENCRYPTED", "DEK-Info": "AES-256-CBC,00"}, Bytes: der}))
+		}
+		add("pkcs1-rsa-public", pemOf("RSA PUBLIC KEY", x509.MarshalPKCS1PublicKey(&rk.PublicKey)))
+		r.Count("foreign_key_kinds", int64(len(hs)))
 		addAll("pem.ReadKey", hs, nil)
 		addAll("pem.ReadCert", hs, nil)
 		addAll("pem.ReadKeyFromFile+ReadCertFromFile", hs, nil)
